@@ -1,3 +1,7 @@
+import Mathlib.Data.Fintype.Pi
+import Mathlib.Data.Fintype.BigOperators
+import Mathlib.Logic.Equiv.Basic
+import Mathlib.Algebra.BigOperators.Group.Finset.Piecewise
 import EpyVerif.Lemmas.Measure
 import EpyVerif.Lemmas.DynRuns
 /-!
@@ -9,8 +13,12 @@ iteration order of the locus *as it is at the start of the step*), then one per 
 fires iff its own number is `≤ p`.  Measure layer: for an ideal uniform number that test succeeds with probability `p`
 (`trial_law`), so the indicators are Bernoulli(p) on distinct coordinates of the stream.
 
-PARTIAL: that distinct coordinates of numpy's stream are independent (hence Binomial / Geometric / exact absorption laws)
-is the assumption of an ideal generator and the textbook product-measure argument; it is not formalised.
+Product law in counting form (`pattern_count`, `pattern_count_pow`): over any finite set of equally likely values the tuples of
+fresh numbers giving a firing pattern number `s^k·t^(n-k)` — independence of the coordinates' indicators, hence the Binomial weights.
+
+PARTIAL: that distinct coordinates of numpy's stream are independent and uniform is the assumption of an ideal generator; the
+passage from the counting form to Lebesgue product measure on [0,1)^n and on to Geometric / exact absorption laws of a whole run
+is not formalised.
 -/
 set_option linter.unusedSectionVars false
 open Queue Dyn
@@ -190,5 +198,29 @@ theorem trial_law (p : ℝ) (h0 : 0 ≤ p) (h1 : p < 1) :
 
 theorem trial_law_one (p : ℝ) (h1 : 1 ≤ p) :
     MeasureTheory.volume {r : ℝ | r ∈ Set.Ico 0 1 ∧ r ≤ p} = 1 := Bridge.trial_law_one p h1
+
+/-- **product law, counting form**: over any finite set `A` of equally likely stream values, the `n`-tuples of fresh numbers that
+    produce exactly the firing pattern `b` (coordinate `i` passes the test iff `b i`) number `∏ᵢ #{a | pass a = b i}`: the
+    indicators of distinct coordinates are independent -/
+theorem pattern_count {A : Type} [Fintype A] [DecidableEq A] (pass : A → Bool) (n : Nat) (b : Fin n → Bool) :
+    Fintype.card {f : Fin n → A // ∀ i, pass (f i) = b i} = ∏ i, Fintype.card {a : A // pass a = b i} := by
+  rw [← Fintype.card_pi]
+  exact Fintype.card_congr (Equiv.subtypePiEquivPi (p := fun i a => pass a = b i))
+
+/-- … that is `s^k · t^(n-k)` with `s` passing values, `t` failing ones and `k` elements firing: the Binomial weight of a pattern -/
+theorem pattern_count_pow {A : Type} [Fintype A] [DecidableEq A] (pass : A → Bool) (n : Nat) (b : Fin n → Bool) :
+    Fintype.card {f : Fin n → A // ∀ i, pass (f i) = b i} =
+      Fintype.card {a : A // pass a = true} ^ (Finset.univ.filter (fun i => b i = true)).card *
+      Fintype.card {a : A // pass a = false} ^ (Finset.univ.filter (fun i => ¬ b i = true)).card := by
+  rw [pattern_count]
+  have : ∀ i, Fintype.card {a : A // pass a = b i} =
+      if b i = true then Fintype.card {a : A // pass a = true} else Fintype.card {a : A // pass a = false} := by
+    intro i; cases h : b i <;> simp
+  simp only [this]
+  rw [Finset.prod_ite, Finset.prod_const, Finset.prod_const]
+
+/-- non-vacuity: 4 equally likely values of which 1 passes, 3 coordinates, pattern (fire, not, not): 1·3·3 = 9 of the 64 streams -/
+example : Fintype.card {f : Fin 3 → Fin 4 // ∀ i, (fun a : Fin 4 => decide (a = 0)) (f i) = (fun i : Fin 3 => decide (i = 0)) i} = 9 := by
+  decide +kernel
 
 end C06
